@@ -97,7 +97,7 @@ class Scte35Events(RepeatingEventBase):
                     "pts": pts
                 },
                 avails_expected=avails_expected,
-                splice_event_id=event_id,
+                splice_event_id=event_id & 0xFFFFFFFF,
                 program_splice_flag=True,
                 avail_num=avail_num,
                 unique_program_id=self.program_id,
